@@ -446,6 +446,130 @@ theorem parseBody_sound (rc : Str → Option Rat) (lines : List Str) (b : List (
     subst h
     exact (fold_sound rc lines _ hf).2.2
 
+/-! ### The strict reader accepts what the model writes -/
+
+def kindsSection (s : Section) : List Line :=
+  .blank :: .title s.path s.cost :: .blank :: .header :: .rule :: (s.rows.map .row ++ [.blank, .hr])
+
+def kindsBucket (g : Bucket × List Section) : List Line :=
+  .blank :: .heading g.1 g.2.length :: g.2.flatMap kindsSection
+
+theorem classifyAll_append (rc : Str → Option Rat) : ∀ (a b : List Str) (x y : List Line),
+    classifyAll rc a = some x → classifyAll rc b = some y → classifyAll rc (a ++ b) = some (x ++ y)
+  | [], b, x, y, ha, hb => by
+    simp only [classifyAll, Option.some.injEq] at ha
+    subst ha
+    simpa using hb
+  | l :: t, b, x, y, ha, hb => by
+    simp only [classifyAll] at ha
+    cases hk : classify rc l with
+    | none => simp [hk] at ha
+    | some k =>
+      cases ht : classifyAll rc t with
+      | none => simp [hk, ht] at ha
+      | some ks =>
+        simp only [hk, ht, Option.some.injEq] at ha
+        subst ha
+        have := classifyAll_append rc t b ks y ht hb
+        simp [classifyAll, hk, this]
+
+theorem classifyAll_flatMap (rc : Str → Option Rat) {α : Type} (f : α → List Str) (g : α → List Line) :
+    ∀ xs : List α, (∀ x ∈ xs, classifyAll rc (f x) = some (g x)) →
+      classifyAll rc (xs.flatMap f) = some (xs.flatMap g)
+  | [], _ => rfl
+  | a :: t, h => by
+    simp only [List.flatMap_cons]
+    exact classifyAll_append rc _ _ _ _ (h a (by simp))
+      (classifyAll_flatMap rc f g t fun x hx => h x (List.mem_cons_of_mem _ hx))
+
+theorem classifyAll_rows (src : Codes → Rat → Str) (rc : Str → Option Rat) (w : Nat) (hw : 0 < w) :
+    ∀ rows : List Row, (∀ r ∈ rows, RowOK src rc r) →
+      classifyAll rc (rows.map (rowLine src w)) = some (rows.map .row)
+  | [], _ => rfl
+  | r :: t, h => by
+    have ih := classifyAll_rows src rc w hw t fun x hx => h x (List.mem_cons_of_mem _ hx)
+    have hr := h r (by simp)
+    simp [classifyAll, classify_row src rc w hw r hr.2 hr.1, ih]
+
+theorem classifyAll_section (sc : Rat → Str) (src : Codes → Rat → Str) (rc : Str → Option Rat) (w : Nat) (hw : 0 < w)
+    (sec : Section) (hs : SecOK sc src rc sec) :
+    classifyAll rc (renderSection sc src w sec) = some (kindsSection sec) := by
+  have h1 := classifyAll_rows src rc w hw sec.rows hs.2.2
+  have h2 : classifyAll rc [[], hrLine] = some [.blank, .hr] := by
+    simp [classifyAll, classify_blank, classify_hr]
+  have h3 := classifyAll_append rc _ _ _ _ h1 h2
+  simp [renderSection, kindsSection, classifyAll, classify_blank, classify_title sc rc sec hs.2.1 hs.1, classify_header,
+    classify_rule, h3]
+
+theorem classifyAll_bucket (sc : Rat → Str) (src : Codes → Rat → Str) (rc : Str → Option Rat) (w : Nat) (hw : 0 < w)
+    (g : Bucket × List Section) (hg : ∀ x ∈ g.2, SecOK sc src rc x) :
+    classifyAll rc (renderBucket sc src w g) = some (kindsBucket g) := by
+  have h := classifyAll_flatMap rc (renderSection sc src w) kindsSection g.2
+    fun x hx => classifyAll_section sc src rc w hw x (hg x hx)
+  simp [renderBucket, kindsBucket, classifyAll, classify_blank, classify_heading, h]
+
+theorem classifyAll_body (sc : Rat → Str) (src : Codes → Rat → Str) (rc : Str → Option Rat) (w : Nat) (hw : 0 < w)
+    (b : List (Bucket × List Section)) (hb : ∀ g ∈ b, ∀ x ∈ g.2, SecOK sc src rc x) :
+    classifyAll rc (renderBody sc src w b) = some (b.flatMap kindsBucket) :=
+  classifyAll_flatMap rc (renderBucket sc src w) kindsBucket b
+    fun g hg => classifyAll_bucket sc src rc w hw g (hb g hg)
+
+theorem runPhase_append : ∀ (a b : List Line) (ph : Phase),
+    runPhase ph (a ++ b) = (runPhase ph a).bind fun ph' => runPhase ph' b
+  | [], b, ph => rfl
+  | k :: t, b, ph => by
+    simp only [List.cons_append, runPhase]
+    cases next ph k with
+    | none => rfl
+    | some ph' => exact runPhase_append t b ph'
+
+theorem runPhase_rows : ∀ rows : List Row, runPhase .s4 (rows.map Line.row) = some .s4
+  | [] => rfl
+  | _ :: t => by simp [runPhase, next, runPhase_rows t]
+
+theorem runPhase_section (sec : Section) : runPhase .b (kindsSection sec) = some .b := by
+  simp [kindsSection, runPhase, next, runPhase_append, runPhase_rows]
+
+theorem runPhase_sections : ∀ secs : List Section, runPhase .b (secs.flatMap kindsSection) = some .b
+  | [] => rfl
+  | a :: t => by simp [List.flatMap_cons, runPhase_append, runPhase_section, runPhase_sections t]
+
+theorem runPhase_bucket (g : Bucket × List Section) (ph : Phase) (h : ph = .p0 ∨ ph = .b) :
+    runPhase ph (kindsBucket g) = some .b := by
+  rcases h with rfl | rfl <;> simp [kindsBucket, runPhase, next, runPhase_sections]
+
+theorem runPhase_body : ∀ (b : List (Bucket × List Section)) (ph : Phase), ph = .p0 ∨ ph = .b →
+    ∃ ph', (ph' = .p0 ∨ ph' = .b) ∧ runPhase ph (b.flatMap kindsBucket) = some ph'
+  | [], ph, h => ⟨ph, h, rfl⟩
+  | g :: t, ph, h => by
+    obtain ⟨ph', h', e⟩ := runPhase_body t .b (.inr rfl)
+    exact ⟨ph', h', by simp [List.flatMap_cons, runPhase_append, runPhase_bucket g ph h, e]⟩
+
+theorem parse_render_body_strict (sc : Rat → Str) (src : Codes → Rat → Str) (rc : Str → Option Rat) (w : Nat) (hw : 0 < w)
+    (b : List (Bucket × List Section)) (hb : okBody b = true) (hc : costsOK sc src rc b = true) :
+    parseBodyStrict rc (renderBody sc src w b) = some b := by
+  unfold parseBodyStrict
+  rw [classifyAll_body sc src rc w hw b (secOK_of sc src rc b hb hc)]
+  obtain ⟨ph', h', e⟩ := runPhase_body b .p0 (.inl rfl)
+  simp only [e]
+  have : accepting ph' = true := by rcases h' with rfl | rfl <;> rfl
+  simp [this, parse_render_body sc src rc w hw b hb hc]
+
+theorem parseBodyStrict_le (rc : Str → Option Rat) (lines : List Str) (b : List (Bucket × List Section))
+    (h : parseBodyStrict rc lines = some b) : parseBody rc lines = some b := by
+  unfold parseBodyStrict at h
+  cases hk : classifyAll rc lines with
+  | none => simp [hk] at h
+  | some ks =>
+    simp only [hk] at h
+    cases hr : runPhase .p0 ks with
+    | none => simp [hr] at h
+    | some ph =>
+      simp only [hr] at h
+      split at h
+      · exact h
+      · simp at h
+
 /-! ### From the lines to the text: `"\n".join` / `split("\n")`, and no line of the model contains a newline -/
 
 theorem splitLines_noNl : ∀ a : Str, '\n' ∉ a → splitLines a = [a]
@@ -612,5 +736,18 @@ theorem parse_render_text (sc : Rat → Str) (src : Codes → Rat → Str) (rc :
   | cons l r =>
     rw [← hne, splitLines_joinLines _ (by simp [hne]) (renderBody_no_nl sc src rc w hw b hb hc)]
     exact parse_render_body sc src rc w hw b hb hc
+
+theorem parse_render_text_strict (sc : Rat → Str) (src : Codes → Rat → Str) (rc : Str → Option Rat) (w : Nat)
+    (hw : 0 < w) (b : List (Bucket × List Section)) (hb : okBody b = true) (hc : costsOK sc src rc b = true) :
+    parseBodyStrict rc (splitLines (joinLines (renderBody sc src w b))) = some b := by
+  cases hne : renderBody sc src w b with
+  | nil =>
+    cases b with
+    | nil =>
+      simp [joinLines, splitLines, parseBodyStrict, classifyAll, classify_blank, runPhase, next, accepting, parseBody, step]
+    | cons g t => simp [renderBody, renderBucket] at hne
+  | cons l r =>
+    rw [← hne, splitLines_joinLines _ (by simp [hne]) (renderBody_no_nl sc src rc w hw b hb hc)]
+    exact parse_render_body_strict sc src rc w hw b hb hc
 
 end Paroxy.ReportText
